@@ -44,7 +44,13 @@ def main():
         env = dict(os.environ, TLEXPORT_SRC=wt)
         res = {}
         for c in checks:
-            rc, o = sh(f"./check {c} --tier quick", cwd=VERIF, env=env)
+            try:
+                rc, o = sh(f"./check {c} --tier quick", cwd=VERIF, env=env, timeout=1500)
+            except subprocess.TimeoutExpired:
+                # a changed tree can make a check crawl (state that grows over a case's executions): 25 minutes and on
+                sh("pkill -f 'mc[.]cli " + c + "'")
+                res[c] = {"exit": "timeout", "violations_printed": 0, "first": "stopped after 1500 s"}
+                continue
             viol = [l for l in o.splitlines() if l.startswith("VIOLATION")]
             first = ""
             lines = o.splitlines()
@@ -61,6 +67,7 @@ def main():
     out["confirmed"] = bool(out["demo_without_patch_rc"] == 0 and out["demo_with_patch_rc"] != 0 and out["tests_passed_with_patch"] >= 60
                             and out["tests_failed_with_patch"] <= 1)
     out["caught_by"] = sorted(c for c, r in out.get("checks", {}).items() if r["exit"] == 1)
+    out["timed_out"] = sorted(c for c, r in out.get("checks", {}).items() if r["exit"] == "timeout")
     dst = os.path.join(VERIF, "seeded", f"{pid}-{os.environ.get('SEED_TAG', 'w3')}{var}")
     os.makedirs(dst, exist_ok=True)
     for fn in ("patch.diff", "demo.py", "notes.md"):
